@@ -274,6 +274,138 @@ func TestVerifC08Align(t *testing.T) {
 	}
 }
 
+// ---------------------------------------------------------------- concurrent use (built with -race)
+
+// TestVerifC08Race: many goroutines on ONE limiter at frozen clocks ("... whatever the interleaving of
+// concurrent callers").  Token limiter: one caller keeps asking for burst+1 tokens (never grantable),
+// callers with a cancelled context (never granted), the others ask for 1 or 2 tokens; nothing
+// impossible may be granted and the tokens granted within the one caller second must not exceed
+// burst.  Period limiter: concurrent takers on several keys; per key exactly quota-1 Allowed, one
+// HitQuota, the rest OverQuota.  The binary is built with the race detector; a report of it is
+// turned into a disagreement by the check (key C08:data-race).
+func TestVerifC08Race(t *testing.T) {
+	cases, rep, _, _ := c08Setup(t)
+	defer rep.Close()
+	s, err := miniredis.Run()
+	if err != nil {
+		t.Fatal(err)
+	}
+	defer s.Close()
+	cs := &c08Server{s: s}
+	cs.hook()
+	store := redis.New(s.Addr())
+	cancelled, cancel := context.WithCancel(context.Background())
+	cancel()
+	for _, c := range cases {
+		cfg := c.Steps[0]
+		v := kit.Verdict{Case: c.Index, OK: true}
+		calls := kit.Num(cfg["calls"])
+		switch kit.Str(cfg["kind"]) {
+		case "token":
+			rate, burst := kit.Num(cfg["rate"]), kit.Num(cfg["burst"])
+			ones, twos, dead := kit.Num(cfg["ones"]), kit.Num(cfg["twos"]), kit.Num(cfg["cancelled"])
+			for round := 0; round < kit.Num(cfg["rounds"]) && v.OK; round++ {
+				s.FlushAll()
+				tl := NewTokenLimiter(rate, burst, store, fmt.Sprintf("race%d.%d", c.Index, round))
+				now := time.Unix(c08Base+int64(round), 0)
+				var wg sync.WaitGroup
+				var tokens, impossible, deadGranted atomic.Int64
+				run := func(n int, ctx context.Context, onGrant func()) {
+					wg.Add(1)
+					go func() {
+						defer wg.Done()
+						for i := 0; i < calls; i++ {
+							var ok bool
+							if ctx != nil {
+								ok = tl.AllowNCtx(ctx, now, n)
+							} else {
+								ok = tl.AllowN(now, n)
+							}
+							if ok {
+								onGrant()
+							}
+						}
+					}()
+				}
+				run(burst+1, nil, func() { impossible.Add(1) })
+				for i := 0; i < ones; i++ {
+					run(1, nil, func() { tokens.Add(1) })
+				}
+				for i := 0; i < twos; i++ {
+					run(2, nil, func() { tokens.Add(2) })
+				}
+				for i := 0; i < dead; i++ {
+					run(1, cancelled, func() { deadGranted.Add(1) })
+				}
+				wg.Wait()
+				v.Steps += (1 + ones + twos + dead) * calls
+				rep.Count("token.calls", (1+ones+twos+dead)*calls)
+				rep.Count("token.tokens-granted", int(tokens.Load()))
+				where := fmt.Sprintf("rate=%d burst=%d, %d concurrent callers on one limiter at one caller second", rate, burst, 1+ones+twos+dead)
+				switch {
+				case impossible.Load() > 0:
+					v.OK, v.Key = false, "C08:token:concurrent:granted-impossible"
+					v.Msg = fmt.Sprintf("%s: a request for burst+1 = %d tokens was granted %d times, specification: never", where, burst+1, impossible.Load())
+				case deadGranted.Load() > 0:
+					v.OK, v.Key = false, "C08:token:concurrent:granted-impossible"
+					v.Msg = fmt.Sprintf("%s: a request with a cancelled context was granted %d times, specification: never", where, deadGranted.Load())
+				case tokens.Load() > int64(burst):
+					v.OK, v.Key = false, "C08:token:concurrent:bound"
+					v.Msg = fmt.Sprintf("%s: %d tokens granted within one second, specification at most burst = %d", where, tokens.Load(), burst)
+				}
+			}
+		case "period":
+			quota, period, keys, takers := kit.Num(cfg["quota"]), kit.Num(cfg["period"]), kit.Num(cfg["keys"]), kit.Num(cfg["takers"])
+			for round := 0; round < kit.Num(cfg["rounds"]) && v.OK; round++ {
+				s.FlushAll()
+				pl := NewPeriodLimit(period, quota, store, fmt.Sprintf("race%d.%d:", c.Index, round))
+				counts := make([][4]atomic.Int64, keys)
+				var wg sync.WaitGroup
+				var nerr atomic.Int64
+				for k := 0; k < keys; k++ {
+					for g := 0; g < takers; g++ {
+						wg.Add(1)
+						go func(k, g int) {
+							defer wg.Done()
+							key := fmt.Sprintf("k%d", k)
+							for i := 0; i < calls; i++ {
+								var code int
+								var err error
+								if (g+i)%2 == 0 {
+									code, err = pl.Take(key)
+								} else {
+									code, err = pl.TakeCtx(context.Background(), key)
+								}
+								if err != nil || code < 0 || code > 3 {
+									nerr.Add(1)
+									continue
+								}
+								counts[k][code].Add(1)
+							}
+						}(k, g)
+					}
+				}
+				wg.Wait()
+				v.Steps += keys * takers * calls
+				rep.Count("period.calls", keys*takers*calls)
+				total := int64(takers * calls)
+				for k := 0; k < keys && v.OK; k++ {
+					a, h, o := counts[k][Allowed].Load(), counts[k][HitQuota].Load(), counts[k][OverQuota].Load()
+					if nerr.Load() == 0 && (a != int64(quota-1) || h != 1 || o != total-int64(quota)) {
+						v.OK, v.Key = false, "C08:period:concurrent:codes"
+						v.Msg = fmt.Sprintf("quota=%d, %d concurrent takers x %d takes on key k%d (of %d keys): Allowed x%d, HitQuota x%d, OverQuota x%d; specification %d, 1, %d",
+							quota, takers, calls, k, keys, a, h, o, quota-1, total-int64(quota))
+					}
+				}
+				if nerr.Load() > 0 && v.OK {
+					v = kit.Verdict{Case: c.Index, Infra: true, Msg: fmt.Sprintf("%d takes returned an error", nerr.Load())}
+				}
+			}
+		}
+		rep.Put(v)
+	}
+}
+
 // ---------------------------------------------------------------- concurrent recovery
 
 // TestVerifC08Concurrent: the mechanism model spec/TokenMonitorImpl.tla says that, whatever the
@@ -458,6 +590,19 @@ func c08Reachable(s *miniredis.Miniredis) bool {
 	})
 }
 
+// c08Restart: Restart listens on the port the server had; if another process has grabbed the port in
+// the meantime it fails with "address already in use" - retry for a while before giving up.
+func c08Restart(s *miniredis.Miniredis) error {
+	var err error
+	for i := 0; i < 100; i++ {
+		if err = s.Restart(); err == nil {
+			return nil
+		}
+		time.Sleep(100 * time.Millisecond)
+	}
+	return err
+}
+
 func monitorIdle(tl *TokenLimiter) bool {
 	if atomic.LoadUint32(&tl.redisAlive) != 1 {
 		return false
@@ -511,7 +656,7 @@ func runC08Token(c kit.Case, cs *c08Server, store *redis.Redis, rep *kit.Reporte
 	defer func() {
 		// leave the server up and the monitor goroutine finished for the next case
 		if !alive {
-			if err := s.Restart(); err == nil {
+			if err := c08Restart(s); err == nil {
 				cs.hook()
 			}
 		}
@@ -592,7 +737,7 @@ func runC08Token(c kit.Case, cs *c08Server, store *redis.Redis, rep *kit.Reporte
 			rep.Count("down", 1)
 			trail = append(trail, "down")
 		case "up":
-			if err := s.Restart(); err != nil {
+			if err := c08Restart(s); err != nil {
 				return infra("miniredis restart: " + err.Error())
 			}
 			cs.hook()
